@@ -321,6 +321,7 @@ class Ctx:
         replay["failing_input_found"] = bool(found)
         h = hashlib.sha256(json.dumps(replay, sort_keys=True, default=str).encode()).hexdigest()[:10]
         path = os.path.join(self.replay_dir, "%s-%s.json" % (self.pid, h))
+        os.makedirs(self.replay_dir, exist_ok=True)
         with open(path, "w") as f:
             json.dump(replay, f, indent=1, default=str)
         print("VIOLATION property=%s replay=%s%s" % (self.pid, path, "" if found else " no-failing-input-found"), flush=True)
